@@ -68,13 +68,18 @@ def slotRoutes (slots : List Slot) : List Route := slots.zipIdx.filterMap slotRo
 def isErrSlot : Slot → Bool
   | .lookupErr => true | .undecodable => true | _ => false
 
+/-- the lookup produced a route published for the hostname -/
+def isRoute : Slot → Bool | .route _ _ => true | _ => false
+
 /-- `sort.SliceStable(filtered, func(i, j) { return filtered[i] is local })` on < 12 elements is an
 insertion sort whose comparator only looks at the moving element: every local route travels to the
 very front (also past earlier local routes), remote routes keep their order. -/
 def order (rs : List Route) : List Route :=
   rs.foldl (fun acc r => if r.isLocal then r :: acc else acc ++ [r]) []
 
-/-- `routeCacheLoader` (what `DialClient` sees of it) -/
+/-- `routeCacheLoader` (what `DialClient` sees of it). In the third case the loader filters the nil
+entries out of the lookup results in place (`filtered := routes[:0]`), so with no route at all — some
+lookups absent, some failed — it caches an EMPTY (but non-nil) route slice: `.routes []`. -/
 def lookup (slots : List Slot) : Lookup :=
   if slots.length = slots.countP (· == .empty) then .notFound
   else if slots.length = slots.countP isErrSlot then .failed
